@@ -1,5 +1,6 @@
 import Mathlib.Algebra.Star.Rat
 import QibProofs.Lemmas.HamPauli
+import QibProofs.Lemmas.HamTerms
 import QibProofs.Lemmas.HamMol
 import QibProofs.Lemmas.LatticeAll
 /-!
@@ -174,6 +175,37 @@ theorem C15_heisenberg_hermitian_flag_sound (H : Heisenberg ℚ) :
       PauliOp.mat (fun q : ℚ => (q : ℂ)) H.lat.nsites H.asPauliOperator :=
   ⟨rfl, C15_heisenberg_hermitian _ (fun a b => Rat.cast_add a b) _ _ _ _ (fun _ => star_ratCast _) (fun _ => star_ratCast _)⟩
 
+/-! ### the (string, weight) list itself: the scan never merges -/
+
+/-- the neighbours visited in row `i` are exactly the scanned edges `(i, j)`, each once -/
+theorem C15_rowJs_spec (L : ℕ) (adj : ℕ → ℕ → ℤ) (i j : ℕ) (hi : i < L) :
+    (j ∈ rowJs L adj i ↔ (i, j) ∈ edgeSet L adj) ∧ (rowJs L adj i).Nodup := by
+  rw [mem_rowJs L adj i j hi, mem_edgeSet]
+  exact ⟨Iff.rfl, rowJs_nodup L adj i⟩
+
+/-- distinct (letter, support) pairs give distinct strings, so `add_pauli_string` never finds an equal string:
+`as_pauli_operator()` is literally the list of inserted terms – for every row `i` one `J`-term per scanned edge
+`(i, j)`, then the `h`-term and the `g`-term of site `i` – with exactly the weights `J`, `h`, `g` (nothing is summed) -/
+theorem C15_ising_terms {α : Type} [Add α] (L : ℕ) (adj : ℕ → ℕ → ℤ) (J h g : α) (conv : IsingConv) :
+    isingOp L adj J h g conv =
+      (List.range L).flatMap fun i =>
+        ((rowJs L adj i).map fun j => (sitePS L conv.letters.1 [i, j], J)) ++
+          [(sitePS L conv.letters.1 [i], h), (sitePS L conv.letters.2 [i], g)] := by
+  unfold isingOp
+  rw [isingOpAB_eq_terms L adj J h g _ _ (by cases conv <;> decide)]
+  rfl
+
+theorem C15_heisenberg_terms {α : Type} [Add α] (L : ℕ) (adj : ℕ → ℕ → ℤ) (J h : Letter → α) :
+    heisOp L adj J h =
+      [Letter.X, Letter.Y, Letter.Z].flatMap fun A => (List.range L).flatMap fun i =>
+        ((rowJs L adj i).map fun j => (sitePS L A [i, j], J A)) ++ [(sitePS L A [i], h A)] := by
+  rw [heisOp_eq_terms]
+  rfl
+
+/-- the strings of one- and two-site supports determine letter and support -/
+theorem C15_sitePS_injective (L : ℕ) (c c' : Letter) (s s' : List ℕ) (hs : ValidSites L s) (hs' : ValidSites L s')
+    (h : sitePS L c s = sitePS L c' s') : c = c' ∧ s = s' := sitePS_inj L c c' s s' hs hs' h
+
 /-! ### constructors of the spin models -/
 
 /-- accepted ⇔ qubit field, all couplings `int`/`float` instances (incl. `bool`, `np.float64`), a genuine convention -/
@@ -341,15 +373,18 @@ theorem C15_hubbard_def_op_spinless (lat : LatIn) (t u : K) (C : CAR R lat.nsite
   unfold Hubbard.den Hubbard.kin Hubbard.int
   rw [C.hubbard_kin_spinless lat.adj t h01 hsym hdiag, C.hubbard_int_spinless lat.adj u]
 
-/-- spinful Hubbard on `h + h` sites with base block `adj[:h, :h]`:
+/-- spinful Hubbard on `L = h + h` sites with base block `adj[:h, :h]`:
 `H = -t Σ_{σ} Σ_{edges of the base once} (a†_{σ,i} a_{σ,j} + h.c.) + u Σ_i n_{↑,i} n_{↓,i}` -/
-theorem C15_hubbard_def_op_spinful (h : ℕ) (adj : ℕ → ℕ → ℤ) (layers : Option ℕ) (t u : K) (C : CAR R (h + h))
-    (h01 : ∀ i j, i < h → j < h → adj i j = 0 ∨ adj i j = 1)
-    (hsym : ∀ i j, i < h → j < h → adj i j = adj j i) (hdiag : ∀ i, i < h → adj i i = 0) :
-    Hubbard.den ⟨⟨h + h, adj, layers⟩, t, u, true⟩ C =
-      (-t) • ∑ s ∈ Finset.range 2, ∑ p ∈ edgeSet h adj,
+theorem C15_hubbard_def_op_spinful (lat : LatIn) (h : ℕ) (hL : lat.nsites = h + h) (t u : K) (C : CAR R lat.nsites)
+    (h01 : ∀ i j, i < h → j < h → lat.adj i j = 0 ∨ lat.adj i j = 1)
+    (hsym : ∀ i j, i < h → j < h → lat.adj i j = lat.adj j i) (hdiag : ∀ i, i < h → lat.adj i i = 0) :
+    Hubbard.den ⟨lat, t, u, true⟩ C =
+      (-t) • ∑ s ∈ Finset.range 2, ∑ p ∈ edgeSet h lat.adj,
         (C.ad (s * h + p.1) * C.a (s * h + p.2) + C.ad (s * h + p.2) * C.a (s * h + p.1)) +
       u • ∑ i ∈ Finset.range h, C.n i * C.n (i + h) := by
+  obtain ⟨n, adj, layers⟩ := lat
+  simp only at hL C h01 hsym hdiag ⊢
+  subst hL
   unfold Hubbard.den Hubbard.kin Hubbard.int
   exact congrArg₂ (· + ·) (C.hubbard_kin_spinful adj t h01 hsym hdiag) (C.hubbard_int_spinful adj u)
 
@@ -383,12 +418,14 @@ theorem C15_hubbard_hermitian_spinless (lat : LatIn) (t u : K) (ht : star t = t)
   exact ⟨by omega, this.2.1, by omega⟩
 
 /-- spinful: -/
-theorem C15_hubbard_hermitian_spinful (h : ℕ) (adj : ℕ → ℕ → ℤ) (layers : Option ℕ) (t u : K)
-    (ht : star t = t) (hu : star u = u) (C : CAR R (h + h))
-    (h01 : ∀ i j, i < h → j < h → adj i j = 0 ∨ adj i j = 1)
-    (hsym : ∀ i j, i < h → j < h → adj i j = adj j i) (hdiag : ∀ i, i < h → adj i i = 0) :
-    star (Hubbard.den ⟨⟨h + h, adj, layers⟩, t, u, true⟩ C) = Hubbard.den ⟨⟨h + h, adj, layers⟩, t, u, true⟩ C := by
-  rw [C15_hubbard_def_op_spinful h adj layers t u C h01 hsym hdiag]
+theorem C15_hubbard_hermitian_spinful (lat : LatIn) (h : ℕ) (hL : lat.nsites = h + h) (t u : K)
+    (ht : star t = t) (hu : star u = u) (C : CAR R lat.nsites)
+    (h01 : ∀ i j, i < h → j < h → lat.adj i j = 0 ∨ lat.adj i j = 1)
+    (hsym : ∀ i j, i < h → j < h → lat.adj i j = lat.adj j i) (hdiag : ∀ i, i < h → lat.adj i i = 0) :
+    (Hubbard.mk lat t u true).isHermitian = true ∧
+    star (Hubbard.den ⟨lat, t, u, true⟩ C) = Hubbard.den ⟨lat, t, u, true⟩ C := by
+  refine ⟨rfl, ?_⟩
+  rw [C15_hubbard_def_op_spinful lat h hL t u C h01 hsym hdiag]
   rw [star_add, star_smul, star_smul, star_neg, ht, hu, star_sum, star_sum]
   congr 2
   · apply Finset.sum_congr rfl
@@ -436,6 +473,79 @@ theorem C15_hubbard_hermitian_coeff (L : ℕ) (adj : ℕ → ℕ → ℤ) (t u :
       · rw [if_neg hc, if_neg (fun h => hc (this.mpr h)), star_zero]
 
 end car
+
+/-! ### on every lattice of the lattice model -/
+
+/-- every well-formed lattice: each pair of neighbouring sites is scanned exactly once -/
+theorem C15_lattice_edges_once (l : Lat) (hl : l.WF) (i j : ℕ) (hadj : l.adj i j = true) :
+    ((i, j) ∈ edgeSet l.nsites (LatIn.ofLat l).adj ∨ (j, i) ∈ edgeSet l.nsites (LatIn.ofLat l).adj) ∧
+    ¬ ((i, j) ∈ edgeSet l.nsites (LatIn.ofLat l).adj ∧ (j, i) ∈ edgeSet l.nsites (LatIn.ofLat l).adj) := by
+  obtain ⟨hsym, hdiag, _, hiff, _⟩ := C15_lattice_adj_props l hl
+  obtain ⟨hi, hj⟩ := adj_lt l hadj
+  exact C15_edges_once l.nsites _ (fun a b _ _ => hsym a b) (fun a _ => hdiag a) i j hi hj ((hiff i j).mpr hadj)
+
+section carlat
+variable {R : Type} [Ring R] [StarRing R] {K : Type} [CommRing K] [Algebra K R] [StarRing K] [StarModule K R]
+
+/-- spinless Hubbard on any well-formed lattice, real couplings: the edge/site form, Hermitian, number conserving -/
+theorem C15_hubbard_lattice_spinless (l : Lat) (hl : l.WF) (t u : K) (ht : star t = t) (hu : star u = u)
+    (C : CAR R (LatIn.ofLat l).nsites) :
+    Hubbard.den ⟨LatIn.ofLat l, t, u, false⟩ C =
+      (-t) • ∑ p ∈ edgeSet l.nsites (LatIn.ofLat l).adj, (C.ad p.1 * C.a p.2 + C.ad p.2 * C.a p.1) +
+      u • ∑ p ∈ edgeSet l.nsites (LatIn.ofLat l).adj, C.n p.1 * C.n p.2 ∧
+    star (Hubbard.den ⟨LatIn.ofLat l, t, u, false⟩ C) = Hubbard.den ⟨LatIn.ofLat l, t, u, false⟩ C ∧
+    C.N * Hubbard.den ⟨LatIn.ofLat l, t, u, false⟩ C = Hubbard.den ⟨LatIn.ofLat l, t, u, false⟩ C * C.N := by
+  obtain ⟨hsym, hdiag, h01, _, _⟩ := C15_lattice_adj_props l hl
+  exact ⟨C15_hubbard_def_op_spinless (LatIn.ofLat l) t u C (fun a b _ _ => h01 a b) (fun a b _ _ => hsym a b) (fun a _ => hdiag a),
+    (C15_hubbard_hermitian_spinless (LatIn.ofLat l) t u ht hu C (fun a b _ _ => h01 a b) (fun a b _ _ => hsym a b)
+      (fun a _ => hdiag a)).2,
+    C15_hubbard_conserves_N ⟨LatIn.ofLat l, t, u, false⟩ C⟩
+
+/-- spinful Hubbard on two layers of any well-formed base lattice: accepted by the constructor, the assertion
+`L % 2 == 0` holds, hopping inside each layer over the base lattice's edges once, on-site repulsion between the
+layers, Hermitian, number conserving -/
+theorem C15_hubbard_lattice_spinful (base : Lat) (hb : base.WF) (t u : PyArg K) (hk : t.kind.isFloat = true ∧ u.kind.isFloat = true)
+    (ht : star t.val = t.val) (hu : star u.val = u.val) (C : CAR R (LatIn.ofLat (.layered base 2)).nsites) :
+    mkHubbard ⟨.fermion, LatIn.ofLat (.layered base 2)⟩ t u true = .ok ⟨LatIn.ofLat (.layered base 2), t.val, u.val, true⟩ ∧
+    Hubbard.check (⟨LatIn.ofLat (.layered base 2), t.val, u.val, true⟩ : Hubbard K) = .ok () ∧
+    Hubbard.den ⟨LatIn.ofLat (.layered base 2), t.val, u.val, true⟩ C =
+      (-t.val) • ∑ s ∈ Finset.range 2, ∑ p ∈ edgeSet base.nsites (LatIn.ofLat base).adj,
+        (C.ad (s * base.nsites + p.1) * C.a (s * base.nsites + p.2) +
+          C.ad (s * base.nsites + p.2) * C.a (s * base.nsites + p.1)) +
+      u.val • ∑ i ∈ Finset.range base.nsites, C.n i * C.n (i + base.nsites) ∧
+    star (Hubbard.den ⟨LatIn.ofLat (.layered base 2), t.val, u.val, true⟩ C) =
+      Hubbard.den ⟨LatIn.ofLat (.layered base 2), t.val, u.val, true⟩ C ∧
+    C.N * Hubbard.den ⟨LatIn.ofLat (.layered base 2), t.val, u.val, true⟩ C =
+      Hubbard.den ⟨LatIn.ofLat (.layered base 2), t.val, u.val, true⟩ C * C.N := by
+  obtain ⟨hsym, hdiag, h01, _, _⟩ := C15_lattice_adj_props base hb
+  have hL : (LatIn.ofLat (.layered base 2)).nsites = base.nsites + base.nsites := by
+    simp [LatIn.ofLat, Lat.nsites]; omega
+  have hblk : ∀ i j, i < base.nsites → j < base.nsites →
+      (LatIn.ofLat (.layered base 2)).adj i j = (LatIn.ofLat base).adj i j :=
+    fun i j hi hj => (C15_layered_block base i j hi hj).2.2
+  have e01 : ∀ i j, i < base.nsites → j < base.nsites →
+      (LatIn.ofLat (.layered base 2)).adj i j = 0 ∨ (LatIn.ofLat (.layered base 2)).adj i j = 1 :=
+    fun i j hi hj => by rw [hblk i j hi hj]; exact h01 i j
+  have esym : ∀ i j, i < base.nsites → j < base.nsites →
+      (LatIn.ofLat (.layered base 2)).adj i j = (LatIn.ofLat (.layered base 2)).adj j i :=
+    fun i j hi hj => by rw [hblk i j hi hj, hblk j i hj hi]; exact hsym i j
+  have ediag : ∀ i, i < base.nsites → (LatIn.ofLat (.layered base 2)).adj i i = 0 :=
+    fun i hi => by rw [hblk i i hi hi]; exact hdiag i
+  have hedge : edgeSet base.nsites (LatIn.ofLat (.layered base 2)).adj = edgeSet base.nsites (LatIn.ofLat base).adj := by
+    ext ⟨i, j⟩
+    simp only [mem_edgeSet]
+    constructor
+    · rintro ⟨h1, h2, h3⟩; exact ⟨h1, h2, by rwa [hblk i j (by omega) h2] at h3⟩
+    · rintro ⟨h1, h2, h3⟩; exact ⟨h1, h2, by rwa [hblk i j (by omega) h2]⟩
+  refine ⟨?_, ?_, ?_, ?_, ?_⟩
+  · simp [mkHubbard, hk.1, hk.2, LatIn.ofLat]
+  · have : (LatIn.ofLat (.layered base 2)).nsites % 2 = 0 := by rw [hL]; omega
+    simp [Hubbard.check, this]
+  · rw [C15_hubbard_def_op_spinful _ base.nsites hL t.val u.val C e01 esym ediag, hedge]
+  · exact (C15_hubbard_hermitian_spinful _ base.nsites hL t.val u.val ht hu C e01 esym ediag).2
+  · exact C15_hubbard_conserves_N ⟨LatIn.ofLat (.layered base 2), t.val, u.val, true⟩ C
+
+end carlat
 
 /-! ### molecular Hamiltonian -/
 
